@@ -3,12 +3,14 @@ C05 — dimensionally incompatible operations fail loudly and change nothing.
 
 Model: `Barril/Model/Fail.lean` (a session over a fixed database with the validity memo table and
 the quantity cache) and `Barril/Model/Conv.lean`.  Helper lemmas: `Barril/Proofs/FailLemmas.lean`.
-The derived-operand half of "adding two values whose dimensions differ raises" is
-`Barril.Alg.opSame_incompatible` in Props/C03 (engine `Alg`); the aliasing half of "operands
+The derived-operand half of "adding two values whose dimensions differ raises" is stated here as a
+corollary of C03's `Alg.add_sub_ok_dims` (engine `Alg`, whose `opSame` is the `sumq` step of the
+session): `sum_of_different_dimensions_fails`, `failed_sum_invisible`; the aliasing half of "operands
 unchanged" is C13's.  Here: conversion, creation, simple-operand arithmetic and ordering, and the
 invisibility of every failed (indeed of every) operation for all later ones.
 -/
 import Barril.Proofs.FailLemmas
+import Barril.Props.C03
 import Barril.Gen.Dbs
 
 namespace Barril.Fail
@@ -435,6 +437,8 @@ theorem xstep_db (st : XState) (op : XOp) : (xstep st op).1.db = nextDb st.db op
   | reg r =>
     simp only [xstep, nextDb]
     cases applyReg st.db r <;> rfl
+  | sumq op a b x y => rfl
+  | eqq a b => rfl
 
 theorem nextDb_legacy (db : Db) (op : XOp) : (nextDb db op).legacy = db.legacy := by
   cases op with
@@ -475,6 +479,8 @@ theorem xstep_inv {st : XState} (h : XInv st) (op : XOp) : XInv (xstep st op).1 
     cases applyReg st.db r with
     | ok db' => exact xinv_fresh db'
     | error e => exact h
+  | sumq op a b x y => exact h
+  | eqq a b => exact h
 
 theorem xrun_inv (ops : List XOp) {st : XState} (h : XInv st) : XInv (xrun st ops) := by
   induction ops generalizing st with
@@ -497,6 +503,8 @@ def xanswer (db : Db) : XOp → Except ErrKind XOut
     match applyReg db r with
     | .ok _ => .ok (.plain .unit)
     | .error e => .error e
+  | .sumq op a b x y => sumAnswer db op a b x y
+  | .eqq a b => .ok (.plain (.bool (a.eqv b)))
 
 /-- **in any reachable state every operation answers as a function of the current registry alone** -/
 theorem xstep_val {st : XState} (h : XInv st) (op : XOp) (ht : op.Tame st.db.legacy) :
@@ -541,6 +549,8 @@ theorem xstep_val {st : XState} (h : XInv st) (op : XOp) (ht : op.Tame st.db.leg
   | reg r =>
     simp only [xstep, xanswer]
     cases applyReg st.db r <;> rfl
+  | sumq op a b x y => rfl
+  | eqq a b => rfl
 
 /-- **the outcome of an operation does not depend on the history**: in any reachable state it is the
 outcome on a database object with empty memo tables over the same registry -/
@@ -629,6 +639,53 @@ theorem obtainDict_rejects_foreign_unit {st : XState} (h : XInv st) {es : List E
   rw [obtainDict_val h es]
   unfold obtainDictPure newDerivedChecked
   rw [hsc, hv]
+
+/-! ### sums and differences of derived operands (engine `Alg` inside the session) -/
+
+/-- **a ± b of operands with different dimension vectors fails**, for simple and derived operands alike (both
+with units: the dimensionless exemption is the empty operand; `Operand`/`Known`: what products, quotients and
+powers of table units are, C04): corollary of C03's `add_sub_ok_dims` -/
+theorem sum_of_different_dimensions_fails {db : Db} (hdb : db.AllWF) (op : Alg.SameOp) {q1 q2 : Alg.Quantity}
+    (v1 v2 : Rat) (h1 : Alg.Operand db q1) (h2 : Alg.Known db q2) (ne1 : q1.entries ≠ []) (ne2 : q2.entries ≠ [])
+    {qt : Sym} (hd : Alg.dim db qt q1.entries ≠ Alg.dim db qt q2.entries) :
+    ∃ e, Alg.opSame db op q1 q2 v1 v2 = .error e := by
+  cases h : Alg.opSame db op q1 q2 v1 v2 with
+  | error e => exact ⟨e, rfl⟩
+  | ok r =>
+    obtain ⟨q, v⟩ := r
+    exact absurd (Alg.add_sub_ok_dims hdb h1 h2 ne1 ne2 h qt) hd
+
+/-- … as a step of the session, in ANY state (whatever was created, memoised or registered before): the step
+fails and hands back the very state it was given -/
+theorem sumq_of_different_dimensions_fails (st : XState) (hdb : st.db.AllWF) (op : Alg.SameOp)
+    {q1 q2 : Alg.Quantity} (v1 v2 : Rat) (h1 : Alg.Operand st.db q1) (h2 : Alg.Known st.db q2)
+    (ne1 : q1.entries ≠ []) (ne2 : q2.entries ≠ []) {qt : Sym}
+    (hd : Alg.dim st.db qt q1.entries ≠ Alg.dim st.db qt q2.entries) :
+    (∃ e, (xstep st (.sumq op q1 q2 v1 v2)).2 = .error e) ∧ (xstep st (.sumq op q1 q2 v1 v2)).1 = st := by
+  obtain ⟨e, he⟩ := sum_of_different_dimensions_fails hdb op v1 v2 h1 h2 ne1 ne2 hd
+  exact ⟨⟨e, by simp only [xstep, sumAnswer, he]⟩, rfl⟩
+
+/-- **after a sum or difference — failed or not — every later answer of the session is unchanged**: the session
+state is not touched by `opSame` at all (no invariant, no tameness needed) -/
+theorem failed_sum_invisible (st : XState) (op : Alg.SameOp) (q1 q2 : Alg.Quantity) (v1 v2 : Rat)
+    (later : List XOp) :
+    xoutputs (xstep st (.sumq op q1 q2 v1 v2)).1 later = xoutputs st later := rfl
+
+/-- … from the very beginning of any history -/
+theorem failed_sum_invisible_in_history (db : Db) (before : List XOp) (op : Alg.SameOp) (q1 q2 : Alg.Quantity)
+    (v1 v2 : Rat) (later : List XOp) :
+    xoutputs (xrun (XState.fresh db) (before ++ [.sumq op q1 q2 v1 v2])) later
+      = xoutputs (xrun (XState.fresh db) before) later := by
+  rw [xrun_append_single]; rfl
+
+/-- the answer of a sum is the same at every point of a history over one registry -/
+theorem sumq_answer_history_independent (st : XState) (op : Alg.SameOp) (q1 q2 : Alg.Quantity) (v1 v2 : Rat) :
+    (xstep st (.sumq op q1 q2 v1 v2)).2 = (xstep (XState.fresh st.db) (.sumq op q1 q2 v1 v2)).2 := rfl
+
+/-- the `==` shortcut of `_DoOperationWithSameQuantity` is taken only by operands with the same entries:
+quantities that differ in one exponent (`1/s` and `1/s2`) are not equal, so their sum reaches the unit check -/
+theorem eqv_entries {a b : Alg.Quantity} (h : a.eqv b = true) : a.entries = b.entries := by
+  simp only [Alg.Quantity.eqv, Bool.and_eq_true, beq_iff_eq] at h; exact h.1
 
 /-! ### non-vacuity on the shipped table -/
 
